@@ -68,6 +68,8 @@ type RTPair struct {
 	// Guided: compose by interpreting the parser once per writer outcome (oracle.go) instead of refuting a flat
 	// parser summary against it (compose.go).
 	Guided bool
+	// RejectSource: specification sources that are malformed on purpose: the parser must answer them with an error.
+	RejectSource func(src *Source) bool
 }
 
 type fieldAgg struct {
@@ -347,6 +349,8 @@ func (c *Checker) a4p(r *report.Report, p RTPair) {
 	var accBad, consBad []string
 	assumed := map[string]bool{}
 	srcs := p.Sources(c)
+	nreject := 0
+	var rejBad []string
 	for _, src := range srcs {
 		opts := ComposeOpts{Computed: map[string]*lin.Form{}, Why: map[string]string{}, Start: p.Start, Params: map[string]lin.Form{}, ExactLen: p.ExactLen}
 		for path, fn := range p.Computed {
@@ -357,7 +361,11 @@ func (c *Checker) a4p(r *report.Report, p RTPair) {
 			opts.Params[name] = fn(src)
 		}
 		opts.Preds = p.ParserPreds
-		if p.ConsumedSkip != nil && p.ConsumedSkip(src) {
+		if p.RejectSource != nil && p.RejectSource(src) {
+			opts.ExpectReject = true
+			nreject++
+		}
+		if opts.ExpectReject || (p.ConsumedSkip != nil && p.ConsumedSkip(src)) {
 			// no consumption claim on this instance
 		} else if p.Consumed != nil {
 			w := p.Consumed(src)
@@ -369,6 +377,12 @@ func (c *Checker) a4p(r *report.Report, p RTPair) {
 		comp := c.Guided(src, p.Parser, p.It, p.Root, p.RootPtr, opts)
 		for _, a := range comp.Assumed {
 			assumed[a] = true
+		}
+		if opts.ExpectReject {
+			if len(comp.Problems) > 0 {
+				rejBad = append(rejBad, src.Name+": "+strings.Join(comp.Problems, " | "))
+			}
+			continue
 		}
 		if len(comp.Problems) > 0 {
 			accBad = append(accBad, src.Name+": "+comp.Problems[0])
@@ -399,10 +413,20 @@ func (c *Checker) a4p(r *report.Report, p RTPair) {
 	key := p.Name
 	r.Floor("A4", key+": specification instances", len(srcs), p.MinSources)
 	if len(accBad) == 0 {
-		r.OK("A4", key+"/accepted", pos, fmt.Sprintf("every reference encoding (%d instances) is accepted by the parser", len(srcs)))
+		r.OK("A4", key+"/accepted", pos, fmt.Sprintf("every reference encoding (%d instances) is accepted by the parser", len(srcs)-nreject))
 	} else {
 		sort.Strings(accBad)
-		r.Bad("A4", key+"/accepted", pos, fmt.Sprintf("%d of %d instances: %s", len(accBad), len(srcs), clip(accBad[0], 2500)))
+		r.Bad("A4", key+"/accepted", pos, fmt.Sprintf("%d of %d instances: %s", len(accBad), len(srcs)-nreject, clip(accBad[0], 2500)))
+	}
+	if p.RejectSource != nil {
+		if len(rejBad) == 0 && nreject > 0 {
+			r.OK("A4", key+"/rejected", pos, fmt.Sprintf("every malformed instance (%d) is answered with an error on every path", nreject))
+		} else if nreject == 0 {
+			r.Unknown("A4", key+"/rejected", pos, "no malformed instance was built")
+		} else {
+			sort.Strings(rejBad)
+			r.Bad("A4", key+"/rejected", pos, fmt.Sprintf("%d of %d malformed instances: %s", len(rejBad), nreject, clip(strings.Join(rejBad, " || "), 2500)))
+		}
 	}
 	if len(consBad) == 0 {
 		r.OK("A4", key+"/consumed", pos, "the parser consumes exactly the reference encoding")
